@@ -192,8 +192,25 @@ func checkC03(c *core.Ctx) {
 				if err != nil {
 					return core.Fail("%s: %v", op, err)
 				}
-				if ok, msg := core.RelClose(rt.Read(got), exp, 1e-12, 0); !ok {
-					return core.Fail("%s(%v): %s", op, v, msg)
+				g := rt.Read(got)
+				if !ref.SameShape(g.Shape, exp.Shape) {
+					return core.Fail("%s(%v): shape %v", op, v, g.Shape)
+				}
+				for i, e := range exp.V {
+					if math.IsInf(e, 0) && math.Abs(x.V[i]) < 710.5 {
+						continue // Go's Cosh / Sinh overflow a little before the true value does: a more accurate result is not wrong
+					}
+					if math.IsNaN(e) || math.IsInf(e, 0) {
+						if !(math.IsNaN(e) && math.IsNaN(g.V[i])) && g.V[i] != e {
+							return core.Fail("%s(%v) = %v, expected %v", op, x.V[i], g.V[i], e)
+						}
+						continue
+					}
+					// relative 1e-12 with an absolute floor in the subnormal range (a faithfully rounded
+					// result may differ there by a unit of the last subnormal place)
+					if d := math.Abs(g.V[i] - e); d > 1e-12*math.Abs(e)+1e-300 || math.IsNaN(d) {
+						return core.Fail("%s(%v) = %v, expected %v", op, x.V[i], g.V[i], e)
+					}
 				}
 				return core.Pass()
 			})
@@ -423,7 +440,7 @@ func checkC04(c *core.Ctx) {
 				if err != nil {
 					return core.Fail("MatMul: %v", err)
 				}
-				if ok, msg := core.RelClose(rt.Read(got), exp, 1e-12, 0); !ok {
+				if ok, msg := relCloseFloor(rt.Read(got), exp, 1e-12, 1e-300); !ok {
 					return core.Fail("MatMul %v x %v: %s", pr[0], pr[1], msg)
 				}
 			}
@@ -433,7 +450,7 @@ func checkC04(c *core.Ctx) {
 			if err != nil {
 				return core.Fail("Dot: %v", err)
 			}
-			if ok, msg := core.RelClose(rt.Read(got), exp, 1e-12, 0); !ok {
+			if ok, msg := relCloseFloor(rt.Read(got), exp, 1e-12, 1e-300); !ok {
 				return core.Fail("Dot %v . %v: %s", d1, d2, msg)
 			}
 			return core.Pass()
@@ -628,6 +645,27 @@ func longShapes(thorough bool) [][]int {
 		out = append(out, []int{1000}, []int{1025}, []int{3, 129, 2}, []int{130, 3}, []int{4, 4, 4, 4}, []int{5, 5, 5}, []int{2, 2, 2, 2, 2, 2, 2}[:6], []int{8, 9, 10})
 	}
 	return out
+}
+
+// relCloseFloor: |g - e| <= rel*|e| + floor element-wise (the floor covers the subnormal range, where a
+// fused multiply-add or another rounding of the last place is as right as separate rounding).
+func relCloseFloor(got, exp *ref.T, rel, floor float64) (bool, string) {
+	if !ref.SameShape(got.Shape, exp.Shape) {
+		return false, fmt.Sprintf("shape %v, expected %v", got.Shape, exp.Shape)
+	}
+	for i, e := range exp.V {
+		g := got.V[i]
+		if math.IsNaN(e) || math.IsInf(e, 0) {
+			if !(math.IsNaN(e) && math.IsNaN(g)) && g != e {
+				return false, fmt.Sprintf("element %d: got %v, expected %v", i, g, e)
+			}
+			continue
+		}
+		if d := math.Abs(g - e); d > rel*math.Abs(e)+floor || math.IsNaN(d) {
+			return false, fmt.Sprintf("element %d: got %v, expected %v", i, g, e)
+		}
+	}
+	return true, ""
 }
 
 // smallPart: for the 'hugecancel' value mode the rounding tolerance is derived
